@@ -36,6 +36,30 @@ pub enum Op {
 #[derive(Debug, Clone, Serialize, Deserialize)]
 pub struct Case {
     pub ops: Vec<Op>,
+    /// recorded with the verification hook of /repo switched on in the recorder child (RNV_LOG_INDEX_AREA_LIMIT=44):
+    /// a log file is full after 128 records, so the history crosses real file switches
+    #[serde(default)]
+    pub small_files: bool,
+}
+
+/// histories for the small-files class: long appends (each crosses a file switch), truncations right behind them
+/// (cut points in the closed file), compaction / install / reopen with several files
+pub fn case_strategy_small() -> impl Strategy<Value = Case> {
+    let op = prop_oneof![
+        5 => (100u8..140, any::<bool>(), 0u16..60).prop_map(|(n, batch, size)| Op::Append { n, batch, size }),
+        4 => (1u8..6, any::<bool>(), prop_oneof![0u16..40, 40u16..300]).prop_map(|(n, batch, size)| Op::Append { n, batch, size }),
+        5 => (1u8..5, 1u8..4).prop_map(|(back, re)| Op::Truncate { back, re }),
+        1 => (0u8..3, 0u8..4).prop_map(|(bump, vote)| Op::HardState { bump, vote }),
+        3 => (1u8..6).prop_map(|n| Op::Applied { n }),
+        2 => Just(Op::Compact),
+        1 => any::<bool>().prop_map(|beyond| Op::Install { beyond }),
+        2 => Just(Op::Reopen),
+    ];
+    prop::collection::vec(op, 4..12).prop_map(|mut ops| {
+        ops.insert(0, Op::HardState { bump: 1, vote: 1 });
+        ops.insert(1, Op::Append { n: 126, batch: true, size: 20 });
+        Case { ops, small_files: true }
+    })
 }
 
 fn op_strategy() -> impl Strategy<Value = Op> {
@@ -57,7 +81,7 @@ fn op_strategy() -> impl Strategy<Value = Op> {
 pub fn case_strategy() -> impl Strategy<Value = Case> {
     prop::collection::vec(op_strategy(), 5..28).prop_map(|mut ops| {
         ops.insert(0, Op::HardState { bump: 1, vote: 1 });
-        Case { ops }
+        Case { ops, small_files: false }
     })
 }
 
@@ -618,6 +642,7 @@ pub fn record(case: &Case, work: &Path, tag: &str) -> Result<Recorded, String> {
         .env("RNV_ROOT", &root)
         .env("RNV_JOURNAL", &journal)
         .env("RUST_LOG", "off")
+        .envs(if case.small_files { Some(("RNV_LOG_INDEX_AREA_LIMIT", "44")) } else { None })
         .output()
         .map_err(|e| format!("cannot start recorder: {}", e))?;
     if !out.status.success() {
@@ -987,11 +1012,30 @@ pub fn main(ctx: &Ctx) -> i32 {
         assumptions: vec![
             "crash model of the property: process death, OS survives, each write call atomic, program order; no torn or reordered writes, no fsync semantics".into(),
             "ops are issued one at a time, each followed by the write barrier, so at most one operation is in flight at any prefix".into(),
-            "store mode mirrors the catalogue messages of compaction (NewSnapshot/Flush/CompleteSnapshot/BuildSnapshotPointerLog); the node tier (c04n.rs) runs generated histories with real compactions in a full node under the same journal and requires, for every prefix, that a restarted node serves the state after j steps for some durable <= j <= submitted".into(),
+            "store mode mirrors the catalogue messages of compaction (NewSnapshot/Flush/CompleteSnapshot/BuildSnapshotPointerLog); the node tier (c04n.rs) runs generated histories with real compactions in a full node under the same journal and requires, for every prefix, that a restarted node serves the state after j steps for some durable <= j <= submitted; the follower tier (c04f.rs) does the same for a full node that is fed as a follower: a generated prefix of a leader's log (possibly reaching beyond the snapshot), the leader's snapshot through create_snapshot / finalize_snapshot_installation, the remaining entries in generated batches".into(),
         ],
         exhaustive: Some(true),
     };
     if let Some(p) = &ctx.replay {
+        if let Ok(frp) = read_replay::<crate::c04f::FollowerCrashReplay>(p) {
+            let r = crate::c04f::replay(&frp, &work);
+            std::fs::remove_dir_all(&work).ok();
+            return match r {
+                Ok(None) => {
+                    println!("OK property={} replay passed", ctx.id);
+                    0
+                }
+                Ok(Some((_, m))) => {
+                    println!("violation detail: {}", m);
+                    println!("VIOLATION property={} replay={}", ctx.id, p.display());
+                    1
+                }
+                Err(e) => {
+                    eprintln!("replay inconclusive: {}", e);
+                    2
+                }
+            };
+        }
         if let Ok(nrp) = read_replay::<crate::c04n::NodeCrashReplay>(p) {
             let r = crate::c04n::replay(ctx, &nrp, &work);
             std::fs::remove_dir_all(&work).ok();
@@ -1030,6 +1074,12 @@ pub fn main(ctx: &Ctx) -> i32 {
             println!("VIOLATION property={} replay={}", ctx.id, p.display());
             return 1;
         }
+        if std::env::var("RNV_C04_DUMP_JOURNAL").is_ok() {
+            for (i, m) in rec.muts.iter().enumerate() {
+                let txt = if m.path == ".marker" { String::from_utf8_lossy(&m.data).trim().to_string() } else { String::new() };
+                eprintln!("#{} op{} {} off={} len={} {}", i + 1, m.op, m.path, m.off, m.len, txt);
+            }
+        }
         // the journal of a re-recorded history has the same shape; enumerate all prefixes
         let r = enumerate(&rec, &work, "replay", &stats, None);
         std::fs::remove_dir_all(&work).ok();
@@ -1045,7 +1095,9 @@ pub fn main(ctx: &Ctx) -> i32 {
             }
         };
     }
-    let n_hist = ctx.tier.pick(120usize, 2000usize);
+    // RNV_C04_TIER=follower|node restricts a run to one of the full-node tiers (development / sensitivity runs only)
+    let only_tier = std::env::var("RNV_C04_TIER").unwrap_or_default();
+    let n_hist = if only_tier.is_empty() { ctx.tier.pick(120usize, 2000usize) } else { 0 };
     let strat = case_strategy();
     let mut violation: Option<(CrashReplay, String)> = None;
     let mut cases: Vec<Case> = vec![];
@@ -1057,6 +1109,12 @@ pub fn main(ctx: &Ctx) -> i32 {
     }
     for i in 0..n_hist {
         cases.push(generate_one(&strat, ctx.seed.wrapping_mul(7919).wrapping_add(i as u64)));
+    }
+    // small-files class (verification hook in the recorder child): crash points across real file switches
+    let n_small = if only_tier.is_empty() { ctx.tier.pick(14usize, 300usize) } else { 0 };
+    let strat_small = case_strategy_small();
+    for i in 0..n_small {
+        cases.push(generate_one(&strat_small, ctx.seed.wrapping_mul(104_729).wrapping_add(50_000 + i as u64)));
     }
     let mut first = true;
     // record all histories first, 16 recorder children at a time
@@ -1102,6 +1160,16 @@ pub fn main(ctx: &Ctx) -> i32 {
             break;
         }
         stats.label("histories");
+        if case.small_files {
+            stats.label("small_files_histories");
+            let logs: BTreeSet<&str> = rec.muts.iter().filter(|m| m.path.starts_with("log_")).map(|m| m.path.as_str()).collect();
+            if logs.len() >= 2 {
+                stats.label("small_files_history_touches_two_or_more_log_files");
+            }
+            if logs.len() >= 3 {
+                stats.label("small_files_history_touches_three_or_more_log_files");
+            }
+        }
         stats.label_n("journal_mutations", rec.muts.iter().filter(|m| m.path != ".marker").count() as u64);
         stats.add_sample(
             serde_json::json!({"history": rec.plan.iter().map(|p| format!("{:?}", p).chars().take(90).collect::<String>()).collect::<Vec<_>>(), "file_mutations": rec.muts.iter().filter(|m| m.path != ".marker").count()}),
@@ -1114,7 +1182,7 @@ pub fn main(ctx: &Ctx) -> i32 {
     }
     if violation.is_none() {
         // node tier: crash points inside a full node (real write path, real compaction), see c04n.rs
-        match crate::c04n::run_tier(ctx, &stats, &work, ctx.tier.pick(3usize, 24usize)) {
+        match crate::c04n::run_tier(ctx, &stats, &work, if only_tier == "follower" { 0 } else { ctx.tier.pick(3usize, 24usize) }) {
             Ok(None) => {}
             Ok(Some((rp, msg))) => {
                 std::fs::remove_dir_all(&work).ok();
@@ -1122,6 +1190,19 @@ pub fn main(ctx: &Ctx) -> i32 {
             }
             Err(e) => {
                 eprintln!("C04 infrastructure problem (node tier): {}", e);
+                std::fs::remove_dir_all(&work).ok();
+                return 2;
+            }
+        }
+        // follower tier: crash points inside a full node that receives log replication and a snapshot install, see c04f.rs
+        match crate::c04f::run_tier(ctx, &stats, &work, if only_tier == "node" { 0 } else { ctx.tier.pick(2usize, 20usize) }) {
+            Ok(None) => {}
+            Ok(Some((rp, msg))) => {
+                std::fs::remove_dir_all(&work).ok();
+                return finish(ctx, &stats, fin(), Some(Failure { case: rp, message: msg }));
+            }
+            Err(e) => {
+                eprintln!("C04 infrastructure problem (follower tier): {}", e);
                 std::fs::remove_dir_all(&work).ok();
                 return 2;
             }
